@@ -825,7 +825,7 @@ class SMPose(SMUserList):
         Tprod = self.__class__._identity()  # identity value
         for T in self.data:
             Tprod = Tprod @ T
-        return self.__class__(Tprod)
+        return self.__class__(Tprod, check=False)
 
     def __pow__(self, n):
         """
